@@ -134,6 +134,34 @@ Definition parse_spec (lit : list byte) : option (Z * bool) :=
   | _ => None
   end.
 
+(** An evaluation shortcut for the correspondence driver: literals whose decimal order of
+    magnitude is >= 10^310 or < 10^-400 are overflow / zero without computing 10^|exponent|
+    (the exponent may have 20 digits).  [jn_round_fast_ok] (FpFacts.v) proves it equal to
+    [jn_round] on well-formed literals. *)
+Fixpoint strip0 (l : list byte) : list byte :=
+  match l with
+  | c :: r => if bz c =? 48 then strip0 r else l
+  | [] => []
+  end.
+
+Definition jn_round_fast (j : jnum) : Z * bool :=
+  let ds := strip0 (j_int j ++ jn_frac_digits j) in
+  let k := jn_exp10 j - len (jn_frac_digits j) in
+  let s := if j_neg j then sign_bit else 0 in
+  match ds with
+  | [] => (s, false)
+  | _ :: _ =>
+    if 310 <=? k + len ds - 1 then (s + inf_bits, true)
+    else if k + len ds <=? -400 then (s, false)
+    else jn_round j
+  end.
+
+Definition parse_spec_fast (lit : list byte) : option (Z * bool) :=
+  match jnum_lex lit with
+  | Some (j, []) => Some (jn_round_fast j)
+  | _ => None
+  end.
+
 (** sanity: 1.5e3, -0.0, 1e400 *)
 Example spec_ex1 : parse_spec (map B [49; 46; 53; 101; 51]) = Some (4654311885213007872, false).
 Proof. vm_compute. reflexivity. Qed.
